@@ -23,6 +23,7 @@ import GherkinVerif.Spec.LayoutChecks5
 import GherkinVerif.Spec.RecoverChecks
 import GherkinVerif.Spec.RecoverChecks2
 import GherkinVerif.Spec.Render
+import GherkinVerif.Spec.Render2
 open GV
 
 namespace Driver
@@ -74,6 +75,25 @@ def split0Aux : List Nat → List Nat → List (List Nat)
   | c :: cs, acc => if c == 0 then acc.reverse :: split0Aux cs [] else split0Aux cs (c :: acc)
 
 def split0 (cs : List Nat) : List (List Nat) := split0Aux cs []
+
+def decNat (s : List Nat) : Nat := s.foldl (fun a c => a * 10 + (c - 48)) 0
+
+/-- `n` rows, each as: cell count (decimal), then that many cells -/
+def decRows : Nat → List (List Nat) → List (List (List Nat)) × List (List Nat)
+  | 0, xs => ([], xs)
+  | _ + 1, [] => ([], [])
+  | n + 1, c :: xs =>
+    let k := decNat c
+    let (rs, rest) := decRows n (xs.drop k)
+    (xs.take k :: rs, rest)
+
+/-- steps as fields: keyword, text, number of table rows (decimal), the rows (`decRows`) -/
+def decSteps : Nat → List (List Nat) → List (List Nat × List Nat × List (List (List Nat)))
+  | 0, _ => []
+  | f + 1, kw :: tx :: r :: rest =>
+    let (rows, rest') := decRows (decNat r) rest
+    (kw, tx, rows) :: decSteps f rest'
+  | _ + 1, _ => []
 
 def pairUp : List (List Nat) → List (List Nat × List Nat)
   | a :: b :: r => (a, b) :: pairUp r
@@ -139,6 +159,18 @@ def handle (op : String) (as : List (List Nat)) : J :=
       let m := Spec.MFeature.ofLists (split0 (arg as 1)) (arg as 2) (arg as 3) (scs (as.drop 4))
       .obj [("wf", .bool (Spec.WF d m)), ("text", .str (Spec.render m)),
             ("expected", (Spec.expectedDoc d (arg as 0) m 0).toJ), ("idsAfter", .num (Spec.idsAfter m 0))]
+    | _, _ => .obj [("crash", .str (lit "no such dialect"))]
+  | "render2" =>
+    -- as `render`, for the richer model of Spec/Render2.lean (steps may carry a data table): the steps argument is
+    -- kw 0 text 0 R 0 then R rows, each as C 0 cell 0 … (R, C decimal)  — Props/C03Roundtrip2.lean
+    match MState.init D (arg as 0), findDialect D (arg as 0) with
+    | some _, some d =>
+      let rec scs2 : List (List Nat) → List (List Str × Str × Str × List (Str × Str × List (List Str)))
+        | t :: k :: n :: st :: rest => (split0 t, k, n, decSteps (st.length + 1) (split0 st)) :: scs2 rest
+        | _ => []
+      let m := Spec.MFeature2.ofLists (split0 (arg as 1)) (arg as 2) (arg as 3) (scs2 (as.drop 4))
+      .obj [("wf", .bool (Spec.WF2 d m)), ("text", .str (Spec.render2 m)),
+            ("expected", (Spec.expectedDoc2 d (arg as 0) m 0).toJ), ("idsAfter", .num (Spec.idsAfter2 m 0))]
     | _, _ => .obj [("crash", .str (lit "no such dialect"))]
   | "recoverok" =>
     -- default dialect | src' : the 0-based positions k such that line k+1 of src' is an unexpected line to which
